@@ -27,6 +27,21 @@ def splitmix64(*xs):
     return z
 
 
+_FIRST_OFFSET = {}
+
+
+def _first_offset(code):
+    """Offset of the first instruction after the function's RESUME (INSTRUCTION events are not reported for RESUME itself)."""
+    import dis
+    seen_resume = False
+    for ins in dis.get_instructions(code):
+        if seen_resume:
+            return ins.offset
+        if ins.opname == "RESUME":
+            seen_resume = True
+    return 0
+
+
 class SimKill(BaseException):
     """Raised at a yield point of a parked task when the run is being torn down."""
 
@@ -122,6 +137,9 @@ class Sim:
         # optional bytecode-level pre-emption of the threads of one simulated process (they share memory):
         # opcode events inside matching frames are counted; the task yields when the count hits a planned value
         self.opcode_plan = None       # sorted list of global opcode-event counts at which to pre-empt
+        self.opcode_points = None     # set of (function name, n-th invocation, n-th bytecode of that invocation) at which to pre-empt
+        self._op_calls = {}           # function name -> invocations so far
+        self._op_inv = {}             # (task id, function name) -> [invocation number, bytecodes executed in it]
         self.opcode_pid = 1000
         self.opcode_count = 0
         self.sig_fn = None            # optional: () -> hashable abstraction of the system state
@@ -202,12 +220,30 @@ class Sim:
     # ------------------------------------------------------------------ bytecode-level pre-emption
     def on_instruction(self, code, offset):
         """Called (through sys.monitoring, see sim/opcodes.py) for every bytecode of the instrumented functions."""
-        if self.opcode_plan is None or self.killing or self.closed:
+        if (self.opcode_plan is None and self.opcode_points is None) or self.killing or self.closed:
             return
         cur = self.current
         if cur is None or cur.pid != self.opcode_pid or cur.thread is not threading.current_thread():
             return
         self.opcode_count += 1
+        if self.opcode_points is not None:
+            name = code.co_name
+            start = _FIRST_OFFSET.get(code)
+            if start is None:
+                start = _FIRST_OFFSET[code] = _first_offset(code)
+            if offset == start:
+                n = self._op_calls[name] = self._op_calls.get(name, 0) + 1
+                inv = self._op_inv[(cur.id, name)] = [n, 0]
+            else:
+                inv = self._op_inv.get((cur.id, name))
+                if inv is None:
+                    inv = self._op_inv[(cur.id, name)] = [self._op_calls.get(name, 0), 0]
+                inv[1] += 1
+            if (name, inv[0], inv[1]) in self.opcode_points:
+                self.count("fault.opcode_preemption_targeted")
+                self.log("preempt@", name, inv[0], inv[1])
+                self.yield_("opcode")
+                return
         plan = self.opcode_plan
         if plan and plan[0] <= self.opcode_count:
             while plan and plan[0] <= self.opcode_count:
